@@ -542,6 +542,10 @@ def r5_suspect_once(ctx, f, rep):
     w = sorted(eff.writers_of(PROBE, 'probe_number'))
     rep.check(w == ['probe::Probe::start'], 'C12-R5', PROBE, 'probe_number advanced only by start()', construct='number-writers',
               facts={'writers': w})
+    for fn_ in ('probe::Probe::start', 'member::Members::next'):
+        cs_ = sorted({c[0].nname for c in f.callers_of(lambda x, n_=fn_: x == n_)})
+        rep.check(cs_ == ['Foca::probe_random_member'], 'C12-R5', fn_, 'called only by probe_random_member (one round, one '
+                  'target per probe tick)', construct='callers:' + fn_.split('::')[-1], facts={'callers': cs_})
     cs = sorted({c[0].nname for c in f.callers_of(lambda x: x == 'Foca::probe_random_member')})
     rep.check(cs == ['Foca::handle_timer'], 'C12-R5', 'Foca::probe_random_member', 'single caller (the probe timer handler)',
               construct='callers', facts={'callers': cs})
